@@ -179,7 +179,10 @@ def data_spec(obj, kind, association, rng, tag=0):
     if kind == "float_nan":
         vals = (tag * 1000 + idx).astype(float) + 0.25
         if n:
-            vals[rng.randrange(n)] = np.nan
+            j = rng.randrange(n)
+            vals[j] = np.nan
+            if n >= 2 and tag % 2 == 0:  # an unbounded entry next to the missing one: infinities are values, not gaps
+                vals[(j + 1) % n] = np.inf if tag % 4 == 0 else -np.inf
         return {"values": vals.copy(), "association": association}, vals
     if kind == "integer":
         vals = (tag * 1000 + idx).astype("int32")
